@@ -22,6 +22,7 @@ ASSUMPTIONS = [
     "the induction over operation histories is a paper argument from the per-operation obligations checked here",
 ]
 RULES = {
+    "C12.LIVE": "premises from the wake protocol, re-checked here for this family: task waker registered first, child polled with its own sub-waker (or the caller's context), no readiness lock across a child poll, a cleared bit is followed by a poll, re-arm after an item, readiness primitives / Wake::wake forward correctly",
     "C12.INSERT": "insert: growth test dominates the slab insert; key/state/arm/return all use the slab key",
     "C12.RESERVE": "reserve: no-op iff len+additional < capacity; else wakers, states, capacity := capacity+additional",
     "C12.REMOVE": "remove: key, state None and slab entry together iff present; returns presence",
@@ -54,6 +55,8 @@ def run(ctx):
         rule_endm(ctx, M, u)
         rule_drain(ctx, M, u)
         grouplike.rule_poll_shared(ctx, M, u, "C12")
+        from . import c01
+        c01.live_premises(ctx, M, [u], "C12.LIVE")
         ctx.floor("C12.VIEW", cfg, 6)
         ctx.floor("C12.ITEM", cfg, 2)
         ctx.floor("C12.ENDM", cfg, 1)
